@@ -197,13 +197,13 @@ def run_tie(pid, cfg, tier, seed, replay, problems, notes):
                 problems.append(("tie", "extracted driver failed: " + out[-500:], {"broken": "driver run", "output_tail": out[-3000:]}))
             nspec = nmis = 0
             failing_lines = set()
+            specfails = []
             for line in out.splitlines():
                 if line.startswith("SPECFAIL "):
                     nspec += 1
                     failing_lines.add(case_key(line[9:]))
-                    if nspec <= 20:
-                        problems.append(("specfail", "specification fails on the implementation's output: " + line[9:][:300],
-                                         {"case": line[9:], "sig": sig_of(cfg, line[9:])}))
+                    if len(specfails) < 5000:
+                        specfails.append(line[9:])
                 elif line.startswith("MISMATCH "):
                     nmis += 1
                     failing_lines.add(case_key(line[9:]))
@@ -220,6 +220,11 @@ def run_tie(pid, cfg, tier, seed, replay, problems, notes):
                                 drvstats[k] = int(v)
                             except ValueError:
                                 drvstats[k] = v
+            # report the smallest failing cases first (cheap shrinking: shortest case lines)
+            specfails.sort(key=len)
+            for c in specfails[:20]:
+                problems.append(("specfail", "specification fails on the implementation's output: " + c[:300],
+                                 {"case": c, "sig": sig_of(cfg, c), "failing_cases_total": nspec}))
             cov["driver"] = drvstats
             cov["byte_drift"] = drvstats.get("drift", 0)
             # in-Coq re-evaluation of a sample
